@@ -10,6 +10,7 @@ import (
 	"verifharness/checks/c01"
 	"verifharness/checks/c03"
 	"verifharness/checks/c04"
+	"verifharness/checks/c06"
 	"verifharness/checks/c07"
 	"verifharness/checks/c08"
 	"verifharness/checks/c09"
@@ -28,6 +29,7 @@ var table = map[string]entry{
 	"C01": {"exploration", c01.Run},
 	"C03": {"fault_enumeration", c03.Run},
 	"C04": {"fault_enumeration", c04.Run},
+	"C06": {"fault_enumeration", c06.Run},
 	"C07": {"exploration", c07.Run},
 	"C08": {"exploration", c08.Run},
 	"C09": {"fault_enumeration", c09.Run},
